@@ -244,7 +244,7 @@ def hBernNd : Handler := fun c => do
   let ps ← getFXL c "probs"
   let us ← getFL c "us"
   let vs ← getFL c "vs"
-  let P := lbParams TF eps ctor shape data
+  let P := (lbParams TF eps ctor shape data).expand (← getNatList c "expand")
   let Pi : RelaxedParams Float := ⟨P.batchShape, P.eventShape, ps, ls⟩
   let B := prodL P.batchShape
   let elems := (us.zip vs).zipIdx.map fun uvn =>
@@ -288,7 +288,7 @@ def hGumbelNd : Handler := fun c => do
   let us ← getFXLL c "us"
   let vs ← getFXLL c "vs"
   let ks ← getNatList c "ks"
-  let P := gParams TF eps ctor shape data
+  let P := (gParams TF eps ctor shape data).expand (← getNatList c "expand")
   let Pi : RelaxedParams Float := ⟨P.batchShape, P.eventShape, ps, ls⟩
   let V := P.eventShape.headD 1
   let B := prodL P.batchShape
